@@ -1,7 +1,7 @@
 (* PropC01.v — property C01: line-based retrace returns exactly the recorded call stack.
    Statements only; proofs in MapperProofs.v (mapper = spec), CacheProofs.v (cache = spec),
    IsolationProofs.v / ParserFacts.v (lifting to files). *)
-From PG Require Import Base Mapping Spec Mapper MappingProofs IsolationProofs MapperProofs ParserFacts.
+From PG Require Import Base Mapping Spec Mapper CacheWriter CacheReader CacheStructDefs MappingProofs IsolationProofs MapperProofs ParserFacts CacheBytesProofs WriterInv CacheProofs CacheLayout.
 
 (* mapper = specification, for every record list with non-empty original class names and
    positive end lines (both hold for what the parser yields from in-domain files) *)
@@ -15,6 +15,17 @@ Theorem C01_mapper_file : forall ix (b : list N) c m line file,
   wf_class_names (recs b) = true ->
   m_remap_frame_lines (build ix (recs b)) c m line file = Ok (Sline (recs b) c m line file).
 Proof. intros ix b c m line file H. apply mapper_lines; [exact H|apply recs_wf_line_mappings]. Qed.
+
+(* cache = specification: the cache written from the records, read back from its bytes,
+   answers every line query (every line number) exactly as the specification *)
+Theorem C01_cache : forall rs c m line file, dom32 rs = true -> sizes_ok rs = true ->
+  parse (write rs) = POk (C rs) /\
+  c_remap_frame_lines (C rs) c m line file = Sline rs c m line file.
+Proof.
+  intros rs c m line file Hd Hs. split.
+  - unfold write, C. apply parse_ser. apply cache_struct_wf; assumption.
+  - apply cache_lines; assumption.
+Qed.
 
 (* the answer is the same with and without the parameter index *)
 Theorem C01_index_irrelevant : forall rs c m line file,
